@@ -13,7 +13,9 @@ RULE = ("Engine S histories on FleetStore and the Fleet edge: capacity 1-5, wait
         "documented dispatcher timer: period = delay, restarted at every wake-up) -> every item loaded at p must become "
         "available exactly at w + 2*transit where w is the first departure instant >= p (either of the two candidates "
         "when p == w), never earlier (premature / rides an earlier trip), never later (left behind / waits too long); "
-        "items of one batch appear in loading order. Non-trivial: >=2 departures with items, and a load during a trip or "
+        "items of one batch appear in loading order and are handed to successive retrievals in that order (binding model of C06 with "
+        "batch members ranked by loading order; a cancelled granted retrieval releases its item ahead of the never-reserved ones). "
+        "Non-trivial: >=2 departures with items, and a load during a trip or "
         "in a departure instant.")
 ASSUMPTIONS = ["timer phase of the dispatcher (restart at every wake-up) is taken from the implementation; everything else from the statement",
                "delay == 0 is not generated here (zero-time spin, owned by C20)"]
@@ -185,9 +187,16 @@ class FleetOracle(Oracle):
 
 
 def run_case(case):
+    from .c06 import DisciplineOracle
     res = Result()
-    h = StoreRun(case, res, [FleetOracle(res)])
+    res_d = Result()
+    # "in loading order" also covers the order in which the destination is handed the items of a batch, including after a
+    # granted retrieval was cancelled: the binding model of C06, here with batch members ranked by arrival (= loading) order
+    disc = DisciplineOracle(res_d, rank_within_batch=True)
+    h = StoreRun(case, res, [FleetOracle(res), disc])
     h.run()
+    for sig, msg in res_d.violations:
+        res.violate(("order", "hand_out"), msg)
     res.classes = [case["subject"]["cls"], "transit=%s" % case["subject"]["transit"]] + sorted(h.flags)
     if res.aborted:
         res.classes.append("aborted:" + res.aborted)
